@@ -29,8 +29,12 @@ func (e *Engine) doIter1(s *slot, op Op) error {
 		return nil
 	}
 	if _, defined := e.expectSeq(s, op, op.M); !defined {
-		e.fact("carved_out_iter_" + op.M)
-		return nil
+		// no oracle for the content (carve-outs, collation Range), but C14 compares the passes with
+		// each other only, so the sequence is exercised all the same
+		e.fact("iter_without_content_oracle_" + op.M)
+		if op.M == "prefix" {
+			return nil
+		}
 	}
 	// reference: one complete pass over a freshly obtained sequence value
 	var ref []kv
@@ -126,7 +130,7 @@ func (e *Engine) queriesBetween(s *slot) {
 			n := 0
 			s.sub.Prefix(q)(func([]byte, int) bool { n++; return n < 3 })
 		}
-		if s.kind.HasRange() {
+		if s.kind.Family() != "collation" || s.model.Len() > 0 {
 			n := 0
 			s.sub.Range(p, probes[0])(func([]byte, int) bool { n++; return n < 3 })
 		}
